@@ -290,3 +290,49 @@ func (r *TxnRunner) Notif(tree *Node, method string) map[string]interface{} {
 	r.notif = nc2
 	return ev
 }
+
+// Reply makes a real client establish one more monitor (of table T, by the given method) whose reply carries
+// the tree instead of the table's contents: Monitor must return (an error or not) without crashing, and a
+// client must be able to work afterwards.
+func (r *TxnRunner) Reply(tree *Node, method string) map[string]interface{} {
+	ev := map[string]interface{}{"ev": "wtxn", "mode": "reply:" + method, "outcome": "", "alive": true, "msg": ""}
+	if r.notif == nil {
+		nc, err := r.newNotifClient()
+		if err != nil {
+			ev["outcome"], ev["alive"], ev["msg"] = "dead", false, "client set-up: "+short(err.Error())
+			return ev
+		}
+		r.notif = nc
+	}
+	nc := r.notif
+	res := tree.Bytes()
+	if method == "monitor_cond_since" {
+		res = []byte(`[false,"00000000-0000-4000-9000-000000000001",` + string(tree.Bytes()) + `]`)
+	}
+	nc.px.ReplaceNextMonitorReply(res)
+	ctx, cancel := context.WithTimeout(context.Background(), 5*time.Second)
+	_, merr := nc.cli.Monitor(ctx, &client.Monitor{Method: method, Tables: []client.TableMonitor{{Table: "T", Fields: []string{"c1", "c5"}}}})
+	cancel()
+	ctx, cancel = context.WithTimeout(context.Background(), 5*time.Second)
+	eerr := nc.cli.Echo(ctx)
+	cancel()
+	if merr == nil {
+		ev["outcome"] = "results"
+	} else {
+		ev["outcome"] = "error"
+		ev["msg"] = short("Monitor: " + merr.Error())
+	}
+	// whatever the reply did to the cache, start the next case from a fresh client
+	nc.close()
+	r.notif = nil
+	if eerr != nil && merr == nil {
+		ev["msg"] = "echo after the monitor: " + short(eerr.Error())
+	}
+	nc2, err := r.newNotifClient()
+	if err != nil {
+		ev["alive"], ev["msg"] = false, "no client can be set up after the reply: "+short(err.Error())
+		return ev
+	}
+	r.notif = nc2
+	return ev
+}
